@@ -22,7 +22,139 @@ def component_table(fn):
     raise AnchorLost("no match on std::path::Component in %s" % fn.path)
 
 
+def _enclosed_by_exploration(f, tab):
+    """spelling-independent decision of the component walk: bounded exploration (E9) of enclosed_name over EVERY sequence of up to
+    three path components (5 kinds each; the iterator's answers are the only unknowns, the depth counter is concrete), compared with
+    the reference semantics -- Prefix/RootDir reject, `..` at depth 0 rejects, Normal descends, `.` is ignored, exhaustion accepts.
+    -> (ok, message)"""
+    from engine import sym
+    import itertools
+    try:
+        res = sym.Sym(f, max_paths=400000).explore(5)
+    except sym.SymTooComplex:
+        return False, "too many paths"
+    kinds = {v: k for k, v in tab.items()}
+
+    def ref(seq):
+        """index at which the reference rejects, or None if it accepts the whole sequence"""
+        d = 0
+        for i, k in enumerate(seq):
+            if k in ("Prefix", "RootDir"):
+                return i
+            if k == "ParentDir":
+                if d == 0:
+                    return i
+                d -= 1
+            elif k == "Normal":
+                d += 1
+        return None
+    traces = []
+    for r in res:
+        seq, exhausted, nul = [], False, False
+        conds = list(r["conds"])
+        i = 0
+        bad = False
+        while i < len(conds):
+            d, v = conds[i]
+            txt = sym.show(d) if d[0] != "discr" else ""
+            if d[0] == "call" and d[1].endswith("contains"):
+                nul = (v != 0)
+            elif d[0] == "discr" and d[1][0] == "call" and d[1][1].endswith("Iterator::next"):
+                if v == 0:
+                    exhausted = True
+                else:
+                    if i + 1 < len(conds) and conds[i + 1][0][0] == "discr" and conds[i + 1][0][1][0] == "field":
+                        kv = conds[i + 1][1]
+                        seq.append(tab.get(kv, "?"))
+                        i += 1
+                    else:
+                        bad = True
+            elif d[0] == "discr":
+                bad = True      # a decision on something else: not the component walk we can classify
+            else:
+                bad = True
+            i += 1
+        if bad:
+            return False, "the walk branches on something other than the components (%s)" % [sym.show(d)[:40] for d, _ in conds][-2:]
+        out = "Some" if sym.is_some_agg(r["ret"]) else ("None" if sym.is_none_agg(r["ret"]) else "?")
+        traces.append((tuple(seq), exhausted, nul, out))
+    nul_ok = [t for t in traces if t[2]]
+    if not nul_ok or any(t[3] != "None" or t[0] for t in nul_ok):
+        return False, "a name containing NUL is not rejected before the walk"
+    traces = [t for t in traces if not t[2]]
+    names = [tab[k] for k in sorted(tab)]
+    n = 0
+    for L in range(0, 4):
+        for s_ in itertools.product(names, repeat=L):
+            n += 1
+            rj = ref(s_)
+            if rj is None:
+                hit = [t for t in traces if t[0] == s_ and t[1]]
+                if not hit or any(t[3] != "Some" for t in hit):
+                    return False, "components %s must be accepted; explored outcome: %s" % (list(s_), [t[3] for t in hit] or "none")
+                early = [t for t in traces if not t[1] and len(t[0]) <= len(s_) and s_[:len(t[0])] == t[0] and t[0]]
+                if early:
+                    return False, "components %s are turned away at %s" % (list(s_), list(early[0][0]))
+            else:
+                pre = s_[:rj + 1]
+                hit = [t for t in traces if t[0] == pre and not t[1]]
+                if not hit or any(t[3] != "None" for t in hit):
+                    longer = [t for t in traces if len(t[0]) > len(pre) and t[0][:len(pre)] == pre] + [t for t in traces if t[0] == pre and t[1]]
+                    return False, "components %s must be rejected at %s; explored: %s" % (list(s_), pre[-1], "walk continues" if longer else "no such path")
+    return True, "%d component sequences (length <= 3) agree with the reference walk" % n
+
+
 def enclosed_rules(facts, rep):
+    """the component walk is decided semantically (bounded exploration against the reference walk, whatever the spelling: `for` +
+    `match`, `try_fold` over a closure or a helper, a signed counter checked at the end ...); the shape-based table below is the second
+    opinion when the exploration cannot classify the function"""
+    rule = "C06-ENC"
+    f = facts.one(r"^types::ZipFileData::enclosed_name$")
+    ex = Ex(f)
+    try:
+        tab = component_table(f)
+    except AnchorLost:
+        tab = {}
+    if len(tab) != 5:
+        adt = (getattr(facts, "adts", None) or {}).get("std::path::Component")
+        tab = {0: "Prefix", 1: "RootDir", 2: "CurDir", 3: "ParentDir", 4: "Normal"}
+    good, msg = _enclosed_by_exploration(f, tab)
+    if good:
+        ok = True
+        w = where(f, f.span)
+        rep.check(True, rule, "component-kinds", w, "five component kinds", "")
+        rep.check(True, rule, "walk-agrees-with-reference", w, msg, "")
+        for k_ in ("nul=>None", "nul-tested", "kind:Prefix", "kind:RootDir", "kind:ParentDir:underflow", "kind:ParentDir:ok", "kind:Normal", "kind:CurDir",
+                   "depth:Normal", "depth:ParentDir", "depth:CurDir", "depth:init", "atoms"):
+            rep.check(True, rule, k_, w, "(covered by the explored sequences: %s)" % msg, "")
+        # what is walked and what is returned is the entry's own name
+        comps = calls_matching(f, r"Path::components$")
+        g1 = bool(comps) and norm(ex.operand(comps[0][1]["args"][0], (comps[0][0], None))) == ("field", ("arg", 1, "self"), "file_name")
+        ok &= bool(rep.check(g1, rule, "walks-own-name", w, "components() of self.file_name", "the component walk is over something other than the entry's name"))
+        somes = [norm(ex.operand(s_["rv"]["ops"][0], (b_, si_))) for b_, si_, s_ in f.stmts()
+                 if s_["k"] == "assign" and s_["place"]["l"] == 0 and not s_["place"]["p"] and s_["rv"]["k"] == "agg" and s_["rv"].get("variant") == "Some" and s_["rv"]["ops"]]
+        g2 = bool(somes) and all(".file_name" in tokens(v_) and not any(x[0] == "call" and not re.search(r"Path::new$|Deref|AsRef", x[1]) for x in walk(v_)) for v_ in somes)
+        ok &= bool(rep.check(g2, rule, "exhausted=>Some(name)", w, "all components accepted: returns the unmodified name as a path",
+                             "after the walk enclosed_name returns %s, not the entry's own name" % [show(v_)[:60] for v_ in somes]))
+        rep.floor(rule, 14)
+        return ok
+    from engine.report import Report
+    shadow = Report(rep.prop, rep.tier, 0)
+    try:
+        shape_ok = _enclosed_by_shape(facts, shadow)
+    except AnchorLost:
+        shape_ok = False
+    if shape_ok and not any(i_.get("verdict") == "violation" for i_ in shadow.instances):
+        return _enclosed_by_shape(facts, rep)
+    rep.check(False, rule, "walk-agrees-with-reference", where(f, f.span), "", "the component walk of enclosed_name differs from the reference walk: %s" % msg)
+    try:
+        _enclosed_by_shape(facts, rep)
+    except AnchorLost:
+        pass
+    return False
+
+
+def _enclosed_by_shape(facts, rep):
     rule = "C06-ENC"
     ok = True
     f = facts.one(r"^types::ZipFileData::enclosed_name$")
